@@ -62,6 +62,8 @@ LAYOUTS = {
     "wrapped inside relations": ([[PARTS[2]], [A, PARTS[1]]], "wrapped", False, ()),
     "one entry on a continuation line": ([[A]], "lead-nl", False, ()),
     "substvar first, then entries": ([[A], [B, Cc]], "substvar-first", False, ("misc:Depends",)),
+    "three entries, comma at line start": ([[A], [B, Cc], [D]], "comma-bol", False, ()),
+    "substvar then entries, comma at line start": ([[A], [Cc]], "comma-bol", False, ("misc:Depends",)),
     "tight relations with restriction lists": ([[rel("t", profiles=[[(True, "nocheck")]])], [rel("u", archqual="any", version=(">=", "1:2"), profiles=[[(False, "stage1")], [(True, "x")]])]], "tight", False, ()),
 }
 
@@ -73,14 +75,22 @@ def layout_tokens(layout):
         return sv + [relspec.rt("COMMA"), relspec.ws(" ")] + relspec.field_tokens(entries, "canonical", trailing, (), sym=SYM)
     if style == "lead-nl":
         return [relspec.rt("NEWLINE"), relspec.ws(" ")] + relspec.field_tokens(entries, "canonical", trailing, svars, sym=SYM)
-    if style != "pipe-eol":
+    if style not in ("pipe-eol", "comma-bol"):
         return relspec.field_tokens(entries, style, trailing, svars, sym=SYM)
     out = []
+    if style == "comma-bol" and svars:
+        out += relspec.field_tokens([], "canonical", False, svars, sym=SYM)
     for i, e in enumerate(entries):
-        if i:
+        if style == "comma-bol":
+            # the line break comes BEFORE the separator ("a\n , b\n , c"): a NEWLINE token at field level between an entry and its comma
+            if i or svars:
+                out += [relspec.rt("NEWLINE"), relspec.ws(" "), relspec.rt("COMMA"), relspec.ws(" ")]
+        elif i:
             out += [relspec.rt("COMMA"), relspec.rt("NEWLINE"), relspec.ws(" ")]
         for j, r in enumerate(e):
-            if j:
+            if j and style == "comma-bol":
+                out += [relspec.ws(" "), relspec.rt("PIPE"), relspec.ws(" ")]
+            elif j:
                 out += [relspec.ws(" "), relspec.rt("PIPE"), relspec.rt("NEWLINE"), relspec.ws(" ")]
             out += relspec.rel_tokens(r, "canonical", SYM)
     return out
